@@ -363,9 +363,8 @@ def replay_product(point, d, err1, err2, what="order"):
             for e_, name in ((ini, "in place"), (res, "copy")):
                 if not rnp.allclose(e_[INI_EPS[1]].operator, C, rtol=1e-12, atol=0) or not rnp.allclose(e_[INI_EPS[0]].operator, A, rtol=1e-12, atol=0):
                     return {"detail": "%s: an operator that the first EKO already had (targets %r) was modified by the product" % (name, INI_EPS)}
-            with EKO.read(tmp / "copy" / "ini.tar") as untouched:
-                if sorted(untouched) != sorted(INI_EPS):
-                    return {"detail": "with path=..., the first EKO on disk was modified: targets %r" % (sorted(untouched),)}
+            if not rnp.allclose(ini2[INI_EPS[1]].operator, C, rtol=1e-12, atol=0) or not rnp.allclose(ini2[INI_EPS[0]].operator, A, rtol=1e-12, atol=0):
+                return {"detail": "with path=..., the first EKO was modified"}
             for t, ep in enumerate(FIN_EPS[:2]):
                 got = ini[ep]
                 cp = res[ep]
